@@ -1,5 +1,6 @@
 import JrsVerif.Common.J
 import JrsVerif.Model.FmtDiag
+import JrsVerif.Model.FmtDiagSink
 
 namespace JrsVerif.Drv.C20
 open Lean JrsVerif.J
@@ -42,6 +43,67 @@ def covered (t : Table) (limit : Nat) : Nat → List Char → Bool
     | some (_, none) => true
     | some (_, some v) => if v.toList == x || limit == 0 then true else covered t limit fuel v.toList
 
+
+open JrsVerif.FmtSink in
+def event? (x : Json) : Option Event :=
+  match x with
+  | .arr a =>
+    match (a.toList.mapM fun v => v.getNat?.toOption) with
+    | some [0] => some .pending
+    | some [1, k, fp] => some (.start k fp)
+    | some [2, k] => some (.token k)
+    | some [3, w, e] => some (.finish w (e != 0))
+    | some [4] => some .noop
+    | _ => none
+  | _ => none
+
+open JrsVerif.FmtSink in
+def lexeme? (x : Json) : Option Lexeme :=
+  match x with
+  | .arr a =>
+    match (a.toList.mapM fun v => v.getNat?.toOption) with
+    | some [k, lo, hi] => some ⟨k, lo, hi⟩
+    | _ => none
+  | _ => none
+
+open JrsVerif.FmtSink in
+def opJson (lex : List Lexeme) : Op → Json
+  | .opn k => .arr #[toJson (1 : Nat), toJson k]
+  | .tok k i =>
+    match lex[i]? with
+    | some l => .arr #[toJson (2 : Nat), toJson k, toJson l.lo, toJson l.hi]
+    | none => .arr #[toJson (2 : Nat), toJson k]
+  | .cls => .arr #[toJson (3 : Nat)]
+
+def kt? (x : Json) : Option (Nat × String) :=
+  match x with
+  | .arr #[k, .str t] => do pure ((← k.getNat?.toOption), t)
+  | _ => none
+
+open JrsVerif.FmtSink in
+/-- `fmt.sink`: the model of `Sink::finish` on the REAL event list and lexemes of one parse -/
+def sinkCase (j : Json) : Json :=
+  match arr? j "ev", arr? j "lx" with
+  | some ev, some lx =>
+    match ev.toList.mapM event?, lx.toList.mapM lexeme? with
+    | some evs, some lex =>
+      let wf := wfb parseTriv evs lex
+      let spec := obj [("res", .str "ok"), ("wf", .bool true), ("yield", .bool true), ("ops", .str "*"), ("errs", .str "*")]
+      match finish sinkTriv evs lex with
+      | .error p => obj [("model", obj [("res", .str "panic"), ("_site", .str (reprStr p)), ("wf", .bool wf)]), ("spec", spec)]
+      | .ok r =>
+        let flat := r.tree.flat
+        let toks := flat.filterMap fun o => match o with | .tok k i => some (k, i) | _ => none
+        let yields := toks == (lex.zipIdx.map fun (l, i) => (l.kind, i))
+        obj [("model", obj [("res", .str "ok"), ("wf", .bool wf), ("yield", .bool yields),
+                            ("ops", .arr (flat.map (opJson lex)).toArray),
+                            ("errs", .arr (r.errs.map fun (a, b) => Json.arr #[toJson a, toJson b]).toArray)]),
+             ("spec", spec)]
+    | _, _ => bad "fmt.sink: ev/lx entries"
+  | _, _ =>
+    -- the parser panicked before the sink ran: no event list; the reference meaning still applies
+    obj [("spec", obj [("res", .str "ok"), ("wf", .bool true), ("yield", .bool true), ("ops", .str "*"), ("errs", .str "*")])]
+
 def handle (op : String) (j : Json) : Option Json :=
   match op with
   | "fmt.diag" =>
@@ -62,7 +124,21 @@ def handle (op : String) (j : Json) : Option Json :=
   | "fmt.idem" =>
     match str? j "once" with
     | none => some (bad "fmt.idem: once")
-    | some once => some (obj [("spec", obj [("res", .str "ok"), ("twice", .str once)])])
+    | some once =>
+      -- `_same_code_tokens`: Lean's verdict (FmtSink.sameTokB, proved ↔ SameTok) on the REAL lexer's
+      -- lexemes of both passes; read by the layout classifiers.  Absent when the harness sent none.
+      let st : List (String × Json) :=
+        match arr? j "once_lx", arr? j "twice_lx" with
+        | some a, some b =>
+          match a.toList.mapM kt?, b.toList.mapM kt? with
+          | some la, some lb =>
+            [("_same_code_tokens", .bool (JrsVerif.FmtSink.sameTokB JrsVerif.FmtSink.sinkTriv la lb)),
+             ("_same_code_tokens_mod_trailing_comma", .bool (JrsVerif.FmtSink.sameTokCB JrsVerif.FmtSink.sinkTriv
+                JrsVerif.Generated.FmtTrivia.commaKind JrsVerif.Generated.FmtTrivia.closerKinds la lb))]
+          | _, _ => []
+        | _, _ => []
+      some (obj ([("spec", obj [("res", .str "ok"), ("twice", .str once)])] ++ st))
+  | "fmt.sink" => some (sinkCase j)
   | "fmt.main" =>
     match (do
       let input ← str? j "input"
